@@ -240,6 +240,10 @@ impl Factors {
             (Carrier::TERMOSOLAR, Source::INSITU),
         ];
         for (c, s) in &exp_carriers {
+            // Si el vector no está definido (p.e. factores simplificados de un edificio sin electricidad) no hay nada que completar
+            if !self.wdata.iter().any(|f| f.carrier == *c) {
+                continue;
+            }
             // Asegura que existe VECTOR, SRC, A_RED | A_NEPB, A, ren, nren
             let fp_a_input = self
                 .wdata
